@@ -274,7 +274,7 @@ def m_deprecate(rng, ws):
 def m_seal(rng, ws):
     secs = [(d, si, s) for r in ws["roots"] for d in r["defs"] for si, s in enumerate(d["secs"])]
     d, si, s = rng.choice(secs)
-    kind = rng.choice(["none", "extent-exact", "extent-minus8", "extent-plus4", "extent-plus1", "extent-0", "sealed"])
+    kind = rng.choice(["none", "extent-exact", "extent-minus8", "extent-plus4", "extent-plus1", "extent-0", "sealed", "extent-frac", "extent-frac"])
     if kind == "none":
         s["seal"] = None
     elif kind == "sealed":
@@ -285,6 +285,11 @@ def m_seal(rng, ws):
             inner = T.Sec(res, d, si).inner_extent
         except Exception:
             return None
+        if kind == "extent-frac":
+            # a non-integer extent whose integer part would be a valid extent (byte multiple, large enough): rejected, not truncated
+            e0 = inner + 8 * rng.choice([0, 1, 4])
+            s["seal"] = rng.choice(["@extent %d.5" % e0, "@extent %d / 2" % (2 * e0 + 1), "@extent %d + 1 / 3" % e0, "@extent %d.125" % e0, "@extent (%d * 3 + 1) / 3" % e0])
+            return "seal:" + kind
         s["seal"] = {"extent-exact": inner, "extent-minus8": inner - 8, "extent-plus4": inner + 4, "extent-plus1": inner + 1, "extent-0": 0}[kind]
         if s["seal"] < 0:
             return None
@@ -362,6 +367,8 @@ RAW = {
     "field-after-extent": ("uint8 late_f", "after-extent", "reject", False),
     "pad-after-extent": ("void8", "after-extent", "reject", False),
     "bool-const-after-extent": ("bool LATE_B = true", "after-extent", "reject", False),
+    # @deprecated belongs before the first attribute of the definition; never in the response - also when the request is empty
+    "deprecated-in-response-of-empty-request": ("@deprecated", "response-first-empty-request", "reject", True),
 }
 LAZY = {  # rejected, located at the statement, but committed lazily by the builder
     "lazy-bad-name": "uint8 _bad_",
@@ -391,10 +398,14 @@ def inject_raw(rng: random.Random, d: dict, name: str) -> tuple[int, int] | None
     else:
         raise KeyError(name)
     nsec = len(d["secs"])
-    if pos in ("response-first", "response-last"):
+    if pos in ("response-first", "response-last", "response-first-empty-request"):
         if nsec != 2:
             return None
         si = 1
+        if pos == "response-first-empty-request":
+            d["secs"][0]["items"] = [it for it in d["secs"][0]["items"] if it[0] == "raw"]
+            if isinstance(d["secs"][0].get("seal"), int):
+                d["secs"][0]["seal"] = "sealed"
     else:
         si = rng.randrange(nsec)
     s = d["secs"][si]
@@ -418,7 +429,7 @@ def inject_raw(rng: random.Random, d: dict, name: str) -> tuple[int, int] | None
         idx = 0
     elif pos in ("last", "response-last"):
         idx = len(items)
-    elif pos == "response-first":
+    elif pos in ("response-first", "response-first-empty-request"):
         idx = 0
     elif pos == "after-attr":
         attrs = [i for i, it in enumerate(items) if it[0] in ("f", "c", "p")]
